@@ -256,3 +256,115 @@ def null_border_cases():
         ls = ['[$default byte_order: "BigEndian"]'] + bits8 + bits16 + ["struct Ss:"] + ["  " + f for f in fields]
         out.append(_case(ls, "boundary-ok:default-in-scope:%s" % fields[0].split()[2].strip(":").lower(), 9, True))
     return out
+
+
+def static_ref_cases():
+    """Static references `Type.field`: allowed wherever an expression is (let, field location / size, array length,
+    condition, [requires], type argument, enum value, attribute value), as long as the target is constant: an enum
+    value, a `let` with a constant value (directly, through other constant lets, through another static reference),
+    $size_in_bytes of a fixed-size structure, $max/$min_size_in_bytes.  Deterministic."""
+    out = []
+    K = [HDR, "enum Ee:", "  AA = 1", "struct Kk:", "  0 [+1]  UInt  x", "  let v = x + 1", "  let k = 3", "  let k2 = k + 1",
+         "  let ks = Kk.k * 2", "  let ke = Ee.AA", "  let al = x", "  let kt = 3 == 3", "  if x == 1:", "    let ck = 5",
+         "struct Dd:", "  0 [+1]  UInt  n", "  1 [+n]  UInt:8[]  xs", "struct Pp(a: UInt:8):", "  0 [+1]  UInt  y"]
+    good = ["Kk.k", "Kk.k2", "Kk.ks", "Kk.ck", "Kk.$size_in_bytes", "Kk.$max_size_in_bytes", "Dd.$max_size_in_bytes", "Dd.$min_size_in_bytes"]
+    bad = ["Kk.v", "Kk.al", "Dd.$size_in_bytes"]
+    sites = [
+        ("let", lambda e: ["struct Uu:", "  0 [+1]  UInt  y", "  let z = %s + 1" % e], 2),
+        ("field-size", lambda e: ["struct Uu:", "  0 [+%s]  UInt:8[]  y" % e], 1),
+        ("field-start", lambda e: ["struct Uu:", "  %s [+1]  UInt  y" % e], 1),
+        ("array-length", lambda e: ["struct Uu:", "  0 [+1]  UInt  n", "  1 [+n]  UInt:8[%s]  y" % e], 2),
+        ("condition", lambda e: ["struct Uu:", "  0 [+1]  UInt  y", "  if %s == 3:" % e, "    1 [+1]  UInt  z"], 2),
+        ("requires", lambda e: ["struct Uu:", "  0 [+1]  UInt  y", "    [requires: this != %s]" % e], 2),
+        ("type-argument", lambda e: ["struct Uu:", "  0 [+1]  Pp(%s)  y" % e], 1),
+    ]
+    n0 = len(K)
+    for sname, f, off in sites:
+        for e in good:
+            if sname in ("field-size", "array-length") and e not in ("Kk.k", "Kk.k2", "Kk.ck"):
+                continue
+            out.append(_case(K + f(e), "boundary-ok:static-reference:%s:%s" % (sname, e.replace("$", "").replace(".", "-")), n0 + 1 + off, True))
+        for e in bad:
+            out.append(_case(K + f(e), "static-reference-not-constant:%s:%s" % (sname, e.replace("$", "").replace(".", "-")), n0 + 1 + off, False))
+    # enum values and attribute values
+    out.append(_case(K + ["enum Ff:", "  BB = Kk.k2"], "boundary-ok:static-reference:enum-value", n0 + 2, True))
+    out.append(_case(K + ["enum Ff:", "  BB = Kk.v"], "static-reference-not-constant:enum-value", n0 + 2, False))
+    out.append(_case(K + ["enum Ff:", "  BB = Kk.v", "struct Uu:", "  0 [+1]  UInt  y", "  let z = Ff.BB"],
+                     "static-reference-not-constant:reference-to-non-constant-enum-value", n0 + 2, False, alt=[n0 + 5]))
+    out.append(_case(K + ["enum Ff:", "  [maximum_bits: Kk.k2 + 4]", "  BB = 1"], "boundary-ok:static-reference:maximum-bits", n0 + 2, True))
+    out.append(_case(K + ["enum Ff:", "  [maximum_bits: Kk.v]", "  BB = 1"], "static-reference-not-constant:maximum-bits", n0 + 2, False))
+    out.append(_case(K + ["struct Uu:", "  0 [+1]  UInt  y", "  let z = Ee.AA == Kk.ke ? 1 : 2"], "boundary-ok:static-reference:enum-constant", n0 + 3, True))
+    out.append(_case(K + ["struct Uu:", "  0 [+1]  UInt  y", "  let z = Kk.kt ? 1 : 2"], "boundary-ok:static-reference:boolean-constant", n0 + 3, True))
+    out.append(_case([HDR, "struct Uu:", "  0 [+1]  UInt  y", "  let k = 2", "  let z = Uu.k + y"], "boundary-ok:static-reference:own-structure", 5, True))
+    # references whose type is not an integer: a non-constant boolean / enumeration virtual field
+    K2 = K[:10] + ["  let vb = x == 1", "  let ve = x == 1 ? Ee.AA : Ee.AA"] + K[10:]
+    n2 = len(K2)
+    out.append(_case(K2 + ["struct Uu:", "  0 [+1]  UInt  y", "  let z = Kk.vb ? 1 : 2"], "static-reference-not-constant:boolean-virtual:let", n2 + 3, False))
+    out.append(_case(K2 + ["struct Uu:", "  0 [+1]  UInt  y", "  if Kk.vb:", "    1 [+1]  UInt  z"], "static-reference-not-constant:boolean-virtual:condition", n2 + 3, False))
+    out.append(_case(K2 + ["struct Uu:", "  0 [+1]  UInt  y", "  let z = Kk.ve == Ee.AA ? 1 : 2"], "static-reference-not-constant:enum-virtual:let", n2 + 3, False))
+    return out
+
+
+_BE_WS = [" ", "  ", "   ", ""]
+
+
+def back_end_list_cases(rng):
+    """[expected_back_ends: "..."]: list syntax, and which qualifiers the module may then use."""
+    out = []
+
+    def mk(rule, ok, value, qualifiers, bad_line=2):
+        esc = value.replace("\\", "\\\\").replace('"', '\\"').replace("\t", "\\t").replace("\n", "\\n")
+        ls = [HDR, '[expected_back_ends: "%s"]' % esc]
+        for q in qualifiers:
+            ls.append('[(%s) namespace: "a::b"]' % q)
+        ls += ["struct Ss:", "  0 [+1]  UInt  x"]
+        out.append(_case(ls, rule, bad_line, ok, alt=list(range(2, 3 + len(qualifiers)))))
+
+    w = lambda: rng.choice(_BE_WS)
+    good = ["cpp", "cpp,xyz", "cpp, xyz", " cpp , xyz ", "cpp,", "cpp , ", "xyz,cpp,abc_9", "", "  ", "a1_b,cpp", "%scpp%s,%sx_y%s,%s" % (w(), w(), w(), w(), w())]
+    for v in good:
+        names = [x.strip() for x in v.split(",") if x.strip()]
+        mk("boundary-ok:expected-back-ends-syntax", True, v, [])
+        if names:
+            mk("boundary-ok:expected-back-ends-declared-qualifier", True, v, [q for q in names if q == "cpp"] + [q for q in names if q != "cpp"][:1])
+        foreign = "zz" if "zz" not in names else "yy"
+        mk("attribute-undeclared-back-end:explicit-list", False, v, [foreign], bad_line=3)
+    mk("attribute-undeclared-back-end:cpp-not-in-list", False, "xyz", ["cpp"], bad_line=3)
+    mk("attribute-undeclared-back-end:blank-list", False, "", ["cpp"], bad_line=3)
+    bad = ["Cpp", "cpp,,xyz", ",cpp", "cpp xyz", "cpp;xyz", "9cpp", "_cpp", "cpp,Xyz", "cpp-x", "c.pp", "cpp, ,", ",", " , ", "cpp,,", "(cpp)", "cpp:xyz"]
+    for v in bad:
+        mk("expected-back-ends-syntax:%s" % "".join(ch if ch.isalnum() else "_" for ch in v), False, v, [])
+    # value kinds
+    for v, tag in (("3", "integer"), ("true", "boolean")):
+        ls = [HDR, "[expected_back_ends: %s]" % v, "struct Ss:", "  0 [+1]  UInt  x"]
+        out.append(_case(ls, "attribute-value-kind:expected_back_ends:%s" % tag, 2, False))
+    ls = [HDR, '[$default expected_back_ends: "cpp"]', "struct Ss:", "  0 [+1]  UInt  x"]
+    out.append(_case(ls, "attribute-not-defaultable:expected_back_ends", 2, False))
+    ls = [HDR, '[expected_back_ends: "cpp"]', '[expected_back_ends: "cpp"]', "struct Ss:", "  0 [+1]  UInt  x"]
+    out.append(_case(ls, "attribute-duplicate:expected_back_ends", 3, False))
+    ls = [HDR, "struct Ss:", '  [expected_back_ends: "cpp"]', "  0 [+1]  UInt  x"]
+    out.append(_case(ls, "attribute-wrong-scope:expected_back_ends:on-struct", 3, False))
+    return out
+
+
+def be_strings(rng, n):
+    """Strings for the function-level comparison of back_ends_okb / back_ends_of with the front end."""
+    ws = [" ", "\t", "\n", "\r", "\x0b", "\x0c", "\x1c", "\x1f", "  "]
+    alpha = "abcxyz09_"
+    out = ["", " ", ",", "cpp", "cpp,", ",cpp", "cpp,,", "cpp , proto", "Cpp", "cpp proto"]
+    while len(out) < n:
+        k = rng.randrange(0, 4)
+        parts = []
+        for _ in range(k):
+            ident = rng.choice("abcxyz") + "".join(rng.choice(alpha) for _ in range(rng.randrange(0, 4)))
+            parts.append(rng.choice(["", rng.choice(ws)]) + ident + rng.choice(["", rng.choice(ws)]))
+        sx = ",".join(parts) + rng.choice(["", "", ",", ", ", rng.choice(ws)])
+        if rng.random() < 0.5 and sx:
+            i = rng.randrange(len(sx) + 1)
+            m = rng.choice(["del", "ins", "ins"])
+            if m == "del" and i < len(sx):
+                sx = sx[:i] + sx[i + 1:]
+            else:
+                sx = sx[:i] + rng.choice([",", " ", "A", "9", "_", "-", ";", "\t", "\x1d", "\x00", "\x7f"]) + sx[i:]
+        out.append(sx)
+    return out
